@@ -7,16 +7,45 @@ import PatchModel.Lemmas.Unified
 namespace PatchModel.C13
 open PatchModel
 
-/-- **context round trip**: the hunks of a context format reject file (separator line between hunks, end of file after the
-    last) are read back by `parse_context_patch` as hunks denoting the same changes: same old side, same new side
-    (content and missing-newline marker), same ranges — the interleaving of '-' and '+' lines may differ. -/
+/-- **context round trip, exact**: the hunks of a context format reject file (separator line between hunks, end of file
+    after the last) are read back by `parse_context_patch` as hunks with the same old side and the same new side, line
+    by line — contents and the terminator class (LF, CR LF, none) of every line — and the same ranges.  The interleaving
+    of '-' and '+' lines may differ: it is not in the text of a context diff.
+
+    (Up to the fix "a line that came with CR LF is written with CR LF" the sides came back with the LF/CRLF class
+    forgotten: `sameChange`, now the corollary `context_roundtrip_sameChange`.) -/
 theorem context_roundtrip (hs : List Hunk) (hne : hs ≠ []) (hw : ∀ h ∈ hs, h.writable = true)
+    (bytes : Bytes) (hb : ctxRejectBody hs = .ok bytes) (lineNo : Nat) (fuel : Nat) (hf : hs.length < fuel) :
+    ∃ hs' par', parseContextBody fuel { s := { rest := splitLines bytes }, lineNo := lineNo } [] = .ok (hs', par') ∧
+      hs'.length = hs.length ∧
+      (∀ i (hi : i < hs.length) (hi' : i < hs'.length),
+        oldOf hs'[i].lines = oldOf hs[i].lines ∧ newOf hs'[i].lines = newOf hs[i].lines ∧
+        hs'[i].old = hs[i].old ∧ hs'[i].new = hs[i].new) ∧
+      par'.s.rest = [] :=
+  Context.context_roundtrip_exact_of Unified.number_roundtrip hs hne hw bytes hb lineNo fuel hf
+
+/-- the round trip with the LF/CRLF class forgotten (the statement of `context_roundtrip` before the writer kept CR LF):
+    a corollary of the exact one -/
+theorem context_roundtrip_sameChange (hs : List Hunk) (hne : hs ≠ []) (hw : ∀ h ∈ hs, h.writable = true)
     (bytes : Bytes) (hb : ctxRejectBody hs = .ok bytes) (lineNo : Nat) (fuel : Nat) (hf : hs.length < fuel) :
     ∃ hs' par', parseContextBody fuel { s := { rest := splitLines bytes }, lineNo := lineNo } [] = .ok (hs', par') ∧
       hs'.length = hs.length ∧
       (∀ i (hi : i < hs.length) (hi' : i < hs'.length), sameChange hs'[i] hs[i]) ∧
       par'.s.rest = [] :=
   Context.context_roundtrip_of Unified.number_roundtrip hs hne hw bytes hb lineNo fuel hf
+
+/-- **the final newline of a context diff can matter** (unlike that of a unified diff, C13U `unified_final_newline_irrelevant`):
+    the text `*** 1 ****` / `- a` / `--- 1 ----` / `*** 2 ****` (`Context.danglingRange`: a hunk whose new half is omitted,
+    then a dangling range line; fuel 6 is what `parse_patch_body` passes for 4 lines) is refused when the last line ends in a
+    newline — the hunk loop goes on with the range line and finds nothing after it — and is accepted, the last line left
+    unread, when it does not: reading that line set the end-of-file flag, un-reading it does not clear the flag, and the
+    look-ahead of the hunk loop reads nothing.  The program does the same (exit status 2 "Unable to retrieve line for
+    context range" against exit status 0 with the hunk applied). -/
+theorem context_final_newline_matters :
+    (parseContextBody 6 { s := { rest := Context.danglingRange .lf } } []).map (·.1) = .error .runtimeError ∧
+    (parseContextBody 6 { s := { rest := Context.danglingRange .none } } []).map (·.1)
+      = .ok [⟨⟨1, 1⟩, ⟨1, 0⟩, [⟨MINUS, ⟨[97], .lf⟩⟩]⟩] :=
+  ⟨Context.danglingRange_lf, Context.danglingRange_none⟩
 
 /-- writing never fails for writable hunks, in either format -/
 theorem context_write_ok (hs : List Hunk) (hw : ∀ h ∈ hs, h.writable = true) : ∃ bytes, ctxRejectBody hs = .ok bytes := by
@@ -31,4 +60,6 @@ theorem context_write_ok (hs : List Hunk) (hw : ∀ h ∈ hs, h.writable = true)
 end PatchModel.C13
 
 #print axioms PatchModel.C13.context_roundtrip
+#print axioms PatchModel.C13.context_roundtrip_sameChange
+#print axioms PatchModel.C13.context_final_newline_matters
 #print axioms PatchModel.C13.context_write_ok
